@@ -125,6 +125,7 @@ type Enc struct {
 	owner     bool
 	localRefs map[string]bool // objects allocated by the function under verification (not yet shared)
 	fpFuns    []string
+	retained  []retainedStore
 	compTypes map[string]types.Type
 	compKind  map[string]string // field | elem | mapval
 }
@@ -736,6 +737,15 @@ func (e *Enc) mergeStates(hint string, ins []*State) *State {
 		}
 		n := e.fresh(k, srt)
 		e.fact(sEq(n, term))
+		if strings.HasPrefix(srt, "(Array Int ") {
+			// pointwise reading of a merged component, so that quantified facts about the incoming
+			// versions are found by E-matching on reads of the merged one
+			pt := sSel(e.get(ins[len(ins)-1], k, srt), "mi")
+			for i := len(ins) - 2; i >= 0; i-- {
+				pt = sIte(ins[i].pc, sSel(e.get(ins[i], k, srt), "mi"), pt)
+			}
+			e.fact("(forall ((mi Int)) (! (= (select " + n + " mi) " + pt + ") :pattern ((select " + n + " mi))))")
+		}
 		out.heap[k] = n
 	}
 	return out
